@@ -25,7 +25,11 @@ Oracles    : implementation only, judged by the property text (no model involved
                backends-differ / spec   local vs S3 vs a 6-line dict store on every in-domain sequence
                range-file               S3RangeFile and open_seekable()'s BufferedReader vs a real local file
                                         (FileIO / buffered) on the same content; every Range header in range
-               retry-contract           attempts / result / sleeps of with_s3_retry judged directly
+               retry-contract           attempts / result / sleeps of with_s3_retry judged directly; transient faults at
+                                        ANY request index of an operation (positional plans), and systematically at every
+                                        page of multi-page listings (3..7 keys, page size 2; within / beyond the budget;
+                                        permanent errors): listing compared as a sorted LIST (duplicates count), request counts
+               paged-listing (corr)     the same listings vs Model/Paged.v (retry restarts the whole listing; C20_paged_listing_*)
 """
 from __future__ import annotations
 
@@ -49,8 +53,9 @@ THEOREMS = [
     "C20_retry_masks", "C20_retry_permanent", "C20_retry_nonretryable", "C20_retry_exhaust",
     "C20_retry_returns_own_value", "C20_retry_raises_own_error",
     "C20_s3_retry_masks", "C20_s3_retry_permanent", "C20_s3_retry_exhaust",
+    "C20_paged_listing_masks", "C20_paged_listing_permanent",
 ]
-REQ = ["DS.Model.Str", "DS.Gen.GenS3", "DS.Model.Backend", "DS.Model.Range", "DS.Model.Retry", "DS.Model.BackendTrace", "DS.Model.C20IO"]
+REQ = ["DS.Model.Str", "DS.Gen.GenS3", "DS.Model.Backend", "DS.Model.Range", "DS.Model.Retry", "DS.Model.BackendTrace", "DS.Model.Paged", "DS.Model.C20IO"]
 
 MANIFEST_ENTRY = {
     "level_text": "C20_refine_s3 / C20_refine_local / C20_backends_agree proved in Coq for every operation sequence over canonical "
@@ -66,7 +71,8 @@ MANIFEST_ENTRY = {
                   "implemented by harness/lib/fakes3.py; local theorem assumes no key is a directory of another key and no "
                   "'.'/'..'/empty segments (path normalisation is C17); exists() is compared on exact keys only (the "
                   "property's wording): exists(<directory>) is True locally and False on S3 without a trailing '/'; "
-                  "BufferedReader and faults inside a multi-request operation are covered by oracles/correspondence only",
+                  "BufferedReader is covered by oracles only; faults inside a paginated listing are modelled (Model/Paged.v, theorem + correspondence), "
+                  "faults inside other multi-request operations (exists('dir/'), open_seekable) by oracles only",
     "technique": "Coq refinement proofs (simulation + induction over operation lists) over translator-regenerated kernels + "
                  "differential correspondence against real backends over an in-memory S3",
     "design_ref": "DESIGN.md section 5 C20",
@@ -993,8 +999,38 @@ def oracle_and_corr_retry(ctx, vs: VirtualSleep) -> None:
             ctx.violation(f"retry-contract:transient-code-permanent:{c}", f"S3 error code {c} is transient but classified permanent (would not be masked)", {"kind": "code", "code": c})
 
 
+def run_s3_with_plans(ops, plans, pfx, F) -> Tuple[List[Any], Dict[str, bytes]]:
+    """Each operation runs with its own positional fault plan (entry i = fault on the i-th request the
+    operation issues, counting retried requests): faults can land on any request of a multi-request operation."""
+    from harness.lib.fakes3 import FakeS3, make_s3_backend
+    s3 = FakeS3(page_size=2)
+    for k, v in F:
+        s3.seed(k, v)
+    be = make_s3_backend(s3, prefix=pfx)
+    out = []
+    for op, plan in zip(ops, plans):
+        s3.clear_faults()
+        s3.plan = [None if x is None else (x[0], x[1]) for x in plan]
+        out.append(apply_op(be, op))
+    s3.clear_faults()
+    return out, s3.dump()
+
+
+def faults_case_fails(ops, plans, pfx, F) -> Optional[Dict[str, Any]]:
+    clean, s3clean = run_s3(ops, pfx, F)
+    faulty, dump = run_s3_with_plans(ops, plans, pfx, F)
+    sp = spec_oracle(ops)
+    if faulty == clean == sp and dump == s3clean.dump():
+        return None
+    i = first_diff(faulty, sp)
+    return {"index": i, "op": list(ops[i][:2]) if i is not None else None, "with_faults": faulty[i] if i is not None else "final bucket differs",
+            "fault_free": clean[i] if i is not None else None, "contract": sp[i] if i is not None else None,
+            "plan": plans[i] if i is not None else None}
+
+
 def oracle_s3_faults(ctx) -> None:
-    """Transient faults injected into the fake (before / after effect) within the budget must not change any result."""
+    """Transient faults injected into the fake (before / after effect, at ANY request index of an operation,
+    so also on later pages of a listing) within the budget must not change any result."""
     from harness.lib.fakes3 import TRANSIENT_CODES
     rng = ctx.rng
     n = 150 if ctx.tier == "quick" else 1500
@@ -1002,34 +1038,52 @@ def oracle_s3_faults(ctx) -> None:
     for _ in range(n):
         pfx, F = rng.choice(PREFIXES)
         ops = []
-        for _ in range(rng.randint(1, 10)):
-            name = rng.choices(OPS, weights=[6, 3, 3, 4, 2, 2, 1])[0]
+        for _ in range(rng.randint(1, 12)):
+            name = rng.choices(OPS, weights=[7, 3, 3, 5, 2, 2, 1])[0]
             ops.append((name, rng.choice(DIRS)) if name == "ListDir" else (name, rng.choice(KEYS), rng.choice(CONTENTS)) if name == "Write" else (name, rng.choice(KEYS)))
-        clean, s3clean = run_s3(ops, pfx, F)
-        from harness.lib.fakes3 import FakeS3, make_s3_backend
-        s3 = FakeS3(page_size=2)
-        for k, v in F:
-            s3.seed(k, v)
-        be = make_s3_backend(s3, prefix=pfx)
-        faulty = []
-        plan_log = []
-        for op in ops:
-            k = rng.choice([0, 0, 1, 2, 5])
-            s3.clear_faults()
-            for _ in range(k):
-                f = (rng.choice(["before", "after"]), rng.choice(TRANSIENT_CODES))
-                plan_log.append(f)
-                s3.fail(f[1], when=f[0])
-            faulty.append(apply_op(be, op))
-        s3.clear_faults()
+        plans = []
+        for _op in ops:
+            k = rng.choice([0, 0, 1, 2, 3, 5])
+            plan: List[Any] = [None] * 10
+            # a read/stat of a missing key uses all max_retries+1 attempts by itself (FileNotFoundError is retried):
+            # keep its last attempt fault-free, otherwise the fault is not "within the budget"
+            span = 5 if _op[0] in ("Read", "Size", "Mtime") else 10
+            for pos in rng.sample(range(span), k):
+                plan[pos] = [rng.choice(["before", "after"]), rng.choice(TRANSIENT_CODES)]
+            plans.append(plan)
         ctx.count(1)
-        if faulty != clean or s3.dump() != s3clean.dump():
+        bad = faults_case_fails(ops, plans, pfx, F)
+        if bad:
             nbad += 1
             if nbad == 1:
-                i = first_diff(faulty, clean)
+                # shrink: drop operations (with their plans), then drop faults
+                cur = list(zip(ops, plans))
+                changed = True
+                while changed:
+                    changed = False
+                    for i in range(len(cur)):
+                        cand = cur[:i] + cur[i + 1:]
+                        if cand and faults_case_fails([c[0] for c in cand], [c[1] for c in cand], pfx, F):
+                            cur, changed = cand, True
+                            break
+                    if changed:
+                        continue
+                    for i, (o, pl) in enumerate(cur):
+                        for j, x in enumerate(pl):
+                            if x is not None:
+                                pl2 = pl[:j] + [None] + pl[j + 1:]
+                                cand = cur[:i] + [(o, pl2)] + cur[i + 1:]
+                                if faults_case_fails([c[0] for c in cand], [c[1] for c in cand], pfx, F):
+                                    cur, changed = cand, True
+                                    break
+                        if changed:
+                            break
+                sops, splans = [c[0] for c in cur], [c[1] for c in cur]
+                bad = faults_case_fails(sops, splans, pfx, F) or bad
                 ctx.violation("retry-contract:transient-fault-changes-result",
-                              f"transient S3 faults within the retry budget changed a result: ops={ops_json(ops)} at {i}: {faulty[i] if i is not None else 'final bucket'} vs {clean[i] if i is not None else ''}",
-                              {"kind": "faults", "prefix": pfx, "ops": ops_json(ops), "faults": plan_log})
+                              f"transient S3 faults within the retry budget changed a result: prefix={pfx!r} ops={ops_json(sops)} plans={splans}: {bad}",
+                              {"kind": "faults", "prefix": pfx, "foreign": [[k, v.decode('latin-1')] for k, v in F], "ops": ops_json(sops), "plans": splans, "detail": bad})
+    ctx.stats["s3_fault_sequences_violating"] = nbad
     # a permanent fault surfaces at once: exactly one request
     from harness.lib.fakes3 import FakeS3, PERMANENT_CODES, make_s3_backend
     from botocore.exceptions import ClientError
@@ -1045,6 +1099,197 @@ def oracle_s3_faults(ctx) -> None:
                 ctx.violation(f"retry-contract:permanent-not-immediate:{op[0]}", f"{op[0]} under permanent S3 error {code}: result {r}, {len(s3.log)} request(s) (expected the ClientError after exactly 1)",
                               {"kind": "permanent", "code": code, "op": list(op[:2])})
     ctx.stats["s3_fault_sequences"] = n
+
+
+# ======================================================================================== faults inside a paginated listing
+LIST_PAGE = 2
+
+
+def list_rig(nkeys: int, pfx: str):
+    """A directory `data` holding nkeys objects (more than one page), with siblings, on S3 (page size 2) and locally."""
+    from harness.lib.fakes3 import FakeS3, make_s3_backend
+    s3 = FakeS3(page_size=LIST_PAGE)
+    be = make_s3_backend(s3, prefix=pfx)
+    names = [f"data/f{i}.parquet" for i in range(nkeys)]
+    for k in names + ["data2/x", "database", "metadata/v1.metadata.json"]:
+        be.write_file(k, b"v")
+    s3.clear_log()
+    return s3, be, names
+
+
+def plan_for(fault_pages: List[int], faults: List[Any]) -> List[Any]:
+    """Attempt a of the listing fails on its page fault_pages[a] (0-based) with faults[a]; later requests are clean."""
+    plan: List[Any] = []
+    for pg, f in zip(fault_pages, faults):
+        plan += [None] * pg + [f]
+    return plan
+
+
+def mk_fault(spec: List[Any]) -> Tuple[str, Any]:
+    when, what = spec
+    if what == "ConnectionResetError":
+        return when, (lambda: ConnectionResetError("connection reset by peer"))
+    if what == "EndpointConnectionError":
+        from botocore.exceptions import EndpointConnectionError
+        return when, (lambda: EndpointConnectionError(endpoint_url="http://s3"))
+    return when, what
+
+
+def list_fault_case(nkeys: int, pfx: str, fault_pages: List[int], faults: List[List[Any]], max_retries: int = 5) -> Optional[Dict[str, Any]]:
+    """Implementation-only judgement of one listing under faults. faults[a] = [when, code-or-exception-name, permanent?]"""
+    s3, be, names = list_rig(nkeys, pfx)
+    npages = max(1, -(-nkeys // LIST_PAGE))
+    assert all(0 <= pg < npages for pg in fault_pages)
+    s3.plan = plan_for(fault_pages, [mk_fault(f[:2]) for f in faults])
+    try:
+        got: Any = ("list", list(be.list_files("data")))
+    except Exception as e:  # noqa: BLE001
+        got = ("raise", type(e).__name__, getattr(e, "response", {}).get("Error", {}).get("Code") if hasattr(e, "response") else None)
+    nreq = len(s3.log)
+    s3.clear_faults()
+    # what the property demands
+    first_perm = next((i for i, f in enumerate(faults) if len(f) > 2 and f[2]), None)
+    if first_perm is not None and first_perm <= max_retries:
+        exp_req = sum(pg + 1 for pg in fault_pages[:first_perm + 1])          # surfaces with the failing request itself
+        exp: Any = ("raise", "ClientError", faults[first_perm][1])
+    elif len(faults) > max_retries:
+        exp_req = sum(pg + 1 for pg in fault_pages[:max_retries + 1])
+        f = faults[max_retries]
+        is_exc = f[1] in ("ConnectionResetError", "EndpointConnectionError")
+        exp = ("raise", f[1] if is_exc else "ClientError", None if is_exc else f[1])
+    else:
+        exp_req = sum(pg + 1 for pg in fault_pages) + npages
+        exp = ("list", sorted(names))
+    ok = (got[0] == exp[0]) and (sorted(got[1]) == exp[1] if got[0] == "list" else (got[1], got[2]) == (exp[1], exp[2])) and nreq == exp_req
+    if ok:
+        return None
+    return {"kind": "list-faults", "nkeys": nkeys, "prefix": pfx, "page_size": LIST_PAGE, "fault_pages": fault_pages, "faults": faults,
+            "got": got if got[0] != "list" else ["list", sorted(got[1])], "expected": list(exp), "requests": nreq, "expected_requests": exp_req}
+
+
+def shrink_list_case(c: Dict[str, Any]) -> Dict[str, Any]:
+    best = c
+    changed = True
+    while changed:
+        changed = False
+        n, pg, fs = best["nkeys"], best["fault_pages"], best["faults"]
+        cands = []
+        for i in range(len(pg)):                                   # drop a fault
+            cands.append((n, pg[:i] + pg[i + 1:], fs[:i] + fs[i + 1:]))
+        if n > 3:                                                  # fewer keys
+            np_ = max(1, -(-(n - 1) // LIST_PAGE))
+            cands.append((n - 1, [min(x, np_ - 1) for x in pg], fs))
+        for i in range(len(pg)):                                   # earlier page
+            if pg[i] > 0:
+                cands.append((n, pg[:i] + [pg[i] - 1] + pg[i + 1:], fs))
+        for cn, cpg, cfs in cands:
+            r = list_fault_case(cn, best["prefix"], cpg, cfs)
+            if r and r["got"][0] == best["got"][0]:
+                best, changed = r, True
+                break
+    return best
+
+
+def gen_list_fault_cases(ctx) -> List[Tuple[int, str, List[int], List[List[Any]]]]:
+    rng = ctx.rng
+    transient = [["before", "SlowDown"], ["after", "SlowDown"], ["before", "ConnectionResetError"], ["after", "InternalError"], ["before", "EndpointConnectionError"]]
+    cases: List[Tuple[int, str, List[int], List[List[Any]]]] = []
+    for nkeys in range(3, 8):
+        npages = -(-nkeys // LIST_PAGE)
+        pfx = ["p", "", "wh/t1/"][nkeys % 3]
+        for f in transient:
+            for pg in range(npages):                                # one fault at every request index
+                cases.append((nkeys, pfx, [pg], [f]))
+        for pg1 in range(npages):                                   # two faults, every pair of pages
+            for pg2 in range(npages):
+                cases.append((nkeys, pfx, [pg1, pg2], [rng.choice(transient), rng.choice(transient)]))
+        for pg in range(npages):                                    # same page fails m times: within (1..5) and beyond (6, 7) the budget
+            for m in (3, 5, 6, 7):
+                cases.append((nkeys, pfx, [pg] * m, [rng.choice(transient) for _ in range(m)]))
+        for pg in range(npages):                                    # permanent error at every page, after 0..2 transient attempts
+            for pre in (0, 1, 2):
+                code = rng.choice(["AccessDenied", "NoSuchBucket", "403", "InvalidAccessKeyId"])
+                cases.append((nkeys, pfx, [rng.randrange(npages) for _ in range(pre)] + [pg],
+                              [rng.choice(transient) for _ in range(pre)] + [["before", code, True]]))
+        for _ in range(10 if ctx.tier == "quick" else 200):         # random fault-page sequences of length 0..7
+            m = rng.randint(0, 7)
+            cases.append((nkeys, pfx, [rng.randrange(npages) for _ in range(m)], [rng.choice(transient) for _ in range(m)]))
+    return cases
+
+
+def oracle_list_faults(ctx) -> None:
+    """Faults at EVERY request index of a multi-page listing: transient ones within the budget must leave the listing
+    (a multiset: duplicates count) equal to the local backend's; beyond the budget the transient error surfaces after
+    exactly max+1 attempts; a permanent error surfaces with the very request it hit."""
+    from datashard.storage_backend import LocalStorageBackend
+    rng = ctx.rng
+    # the local backend's listing of the same directory is the reference for the multiset
+    for nkeys in range(3, 8):
+        root = tempfile.mkdtemp(prefix="lst-", dir=ctx.scratch)
+        lb = LocalStorageBackend(root)
+        names = [f"data/f{i}.parquet" for i in range(nkeys)]
+        for k in names + ["data2/x", "database"]:
+            lb.write_file(k, b"v")
+        if sorted(lb.list_files("data")) != sorted(names):
+            ctx.violation("backends-differ:ListDir:local-reference", f"local listing of data/ is {sorted(lb.list_files('data'))}", {"kind": "other"})
+        shutil.rmtree(root, ignore_errors=True)
+    cases = gen_list_fault_cases(ctx)
+    seen = set()
+    nbad = 0
+    for nkeys, pfx, pages_, faults in cases:
+        ctx.count(1, ("list-faults", nkeys, repr(pages_), repr(faults)))
+        bad = list_fault_case(nkeys, pfx, pages_, faults)
+        if not bad:
+            continue
+        nbad += 1
+        if bad["got"][0] == "list":
+            dup = len(bad["got"][1]) != len(set(bad["got"][1]))
+            key = "retry-contract:listing-under-transient-faults:" + ("duplicated-keys" if dup else "wrong-keys")
+        else:
+            key = "retry-contract:listing-fault-surfacing"
+        if bad["got"][0] == exp_kind(bad) and bad["requests"] != bad["expected_requests"]:
+            key = "retry-contract:listing-request-count"
+        if key in seen:
+            continue
+        seen.add(key)
+        small = shrink_list_case(bad)
+        ctx.violation(key, f"list_files('data') over {small['nkeys']} keys (page size {LIST_PAGE}) with faults {small['faults']} on pages {small['fault_pages']} of "
+                           f"successive attempts: got {small['got']} after {small['requests']} request(s), expected {small['expected']} after {small['expected_requests']}",
+                      small)
+    ctx.stats["list_fault_cases"] = len(cases)
+    ctx.stats["list_fault_cases_violating"] = nbad
+
+
+def exp_kind(bad: Dict[str, Any]) -> str:
+    return bad["expected"][0]
+
+
+def corr_paged(ctx) -> None:
+    """Real list_files under a positional fault plan vs Model/Paged.v paged_list: result (exact order) and total requests."""
+    cases = gen_list_fault_cases(ctx)
+    exprs, impl = [], []
+    for nkeys, pfx, fault_pages, faults in cases:
+        s3, be, names = list_rig(nkeys, pfx)
+        s3.plan = plan_for(fault_pages, [mk_fault(f[:2]) for f in faults])
+        try:
+            got: Any = ("ret", list(be.list_files("data")))
+        except Exception as e:  # noqa: BLE001
+            from datashard.s3_consistency import is_permanent_s3_error
+            got = ("raise", "FPermanent" if is_permanent_s3_error(e) else "FTransient")
+        impl.append((got, len(s3.log)))
+        s3.clear_faults()
+        snames = sorted(names)
+        pages = [snames[i:i + LIST_PAGE] for i in range(0, len(snames), LIST_PAGE)] or [[]]
+        plan = plan_for(fault_pages, ["(Some FPermanent)" if (len(f) > 2 and f[2]) else "(Some FTransient)" for f in faults])
+        exprs.append("paged_case [" + "; ".join("[" + "; ".join(cstr(k) for k in pg) + "]" for pg in pages) + "] ["
+                     + "; ".join("None" if x is None else x for x in plan) + "]")
+    got_m = ceval(exprs)
+    bad = []
+    for case, (gi, nreq), (rm, nm) in zip(cases, impl, got_m):
+        m: Any = ("ret", list(rm.args[0])) if rm.name == "PLReturned" else ("raise", rm.args[0].name) if rm.name == "PLRaised" else ("ended",)
+        if gi != m or nreq != nm:
+            bad.append({"nkeys": case[0], "prefix": case[1], "fault_pages": case[2], "faults": case[3], "impl": [list(gi), nreq], "model": [list(m), nm]})
+    ctx.correspondence("paged-listing", len(cases), bad)
 
 
 # ======================================================================================== driver
@@ -1084,12 +1329,14 @@ def run(ctx) -> None:
     impl_obs = phase("oracle_backends", oracle_backends, ctx, cases)
     phase("oracle_range", oracle_range, ctx)
     phase("oracle_s3_faults", oracle_s3_faults, ctx)
+    phase("oracle_list_faults", oracle_list_faults, ctx)
     try:
         phase("retry", oracle_and_corr_retry, ctx, vs)
         phase("corr_backends", corr_backends, ctx, cases, impl_obs)
         phase("corr_raw", corr_raw, ctx)
         phase("corr_kernels", corr_kernels, ctx)
         phase("corr_range", corr_range, ctx)
+        phase("corr_paged", corr_paged, ctx)
     except RuntimeError as e:
         ctx.proof_problems.append("model evaluation failed: " + str(e)[:800])
 
@@ -1107,6 +1354,16 @@ def replay(ctx, payload) -> int:
     if kind == "range":
         rig = RangeRig(ctx.scratch, case["size"])
         bad = rig.judge([tuple(p) for p in case["prog"]], case["buffered"])
+        print("replay:", "STILL FAILS " + repr(bad) if bad else "passes now")
+        return 1 if bad else 0
+    if kind == "list-faults":
+        bad = list_fault_case(case["nkeys"], case["prefix"], case["fault_pages"], case["faults"])
+        print("replay:", "STILL FAILS " + repr(bad) if bad else "passes now")
+        return 1 if bad else 0
+    if kind == "faults":
+        ops = ops_unjson(case["ops"])
+        F = [(k, v.encode("latin-1")) for k, v in case.get("foreign", [])]
+        bad = faults_case_fails(ops, case["plans"], case["prefix"], F)
         print("replay:", "STILL FAILS " + repr(bad) if bad else "passes now")
         return 1 if bad else 0
     if kind == "retry":
